@@ -115,7 +115,7 @@ def layouts(ck):
     from sims.t34_sims import t3_attr
     rng = ck.rng
     out = []
-    n12 = 10 if ck.thorough else 2
+    n12 = 7 if ck.thorough else 2
     for kind in ("t2", "t1s", "t1d"):
         for i in range(n12):
             out.append((kind, layout_with_old(rng, kind, False, [0, 5, 30, 254, 255, lambda f: f - 4])))
